@@ -25,6 +25,7 @@ pub struct Entry {
 
 const C18: &[&str] = &["C18"];
 const C18_10: &[&str] = &["C18", "C10"];
+const ALL3: &[&str] = &["C18", "C10", "C09"];
 const F: &[&str] = &["C09", "C10"];
 
 fn e<T: Sem>(name: &'static str, props: &'static [&'static str], weight: u32, budget: usize) -> Entry {
@@ -193,10 +194,10 @@ pub fn catalogue() -> Vec<Entry> {
         e::<WithConst<3>>("derive WithConst<3>", C18, 2, 8),
         e::<Deep>("derive Deep", C18_10, 2, 1),
         e::<Single>("derive Single", C18, 1, 8),
-        e::<CompressedChecked<G1A>>("CompressedChecked<G1Affine>", C18_10, 2, 1),
-        e::<UncompressedChecked<G1A>>("UncompressedChecked<G1Affine>", C18_10, 2, 1),
-        e::<CompressedUnchecked<G1A>>("CompressedUnchecked<G1Affine>", C18_10, 2, 1),
-        e::<UncompressedUnchecked<G1A>>("UncompressedUnchecked<G1Affine>", C18_10, 2, 1),
+        e::<CompressedChecked<G1A>>("CompressedChecked<G1Affine>", ALL3, 2, 1),
+        e::<UncompressedChecked<G1A>>("UncompressedChecked<G1Affine>", ALL3, 2, 1),
+        e::<CompressedUnchecked<G1A>>("CompressedUnchecked<G1Affine>", ALL3, 2, 1),
+        e::<UncompressedUnchecked<G1A>>("UncompressedUnchecked<G1Affine>", ALL3, 2, 1),
         e::<Vec<CompressedChecked<G1A>>>("Vec<CompressedChecked<G1Affine>>", C18_10, 1, 1),
         e::<Named>("derive Named", C18_10, 4, 1),
         e::<Tup>("derive Tup", C18_10, 3, 1),
@@ -255,6 +256,12 @@ pub fn catalogue() -> Vec<Entry> {
         "ed_on_bw6_761", "PairingOutput<MNT4_298>", "mnt6_298::G2", "mnt4_298::G2", "PairingOutput<Bn254>", "PairingOutput<Bls12_381>",
     ];
     for e in v.iter_mut() {
+        if e.name.starts_with("Vec<PairingOutput") || e.name.starts_with("[PairingOutput") {
+            // aggregate validity checks over target-group elements: worth their cost
+            e.weight = 18;
+            e.hooks.budget = 1;
+            continue;
+        }
         if HEAVY.iter().any(|h| e.name.contains(h)) {
             e.weight = 1;
             // (containers keep a small element budget; budget 0 marks a single heavy value)
